@@ -288,6 +288,9 @@ fn run_sequence(rt: &tokio::runtime::Runtime, seq: &[Op], refresh_plan: &[bool],
         let refreshed = if refresh_plan.get(step).copied().unwrap_or(true) { rt.block_on(refresh_node_registry(&mut registry, &os, false, false, false)) } else { Ok(()) };
         if refresh_plan.get(step).copied().unwrap_or(true) && refreshed.is_ok() {
             stale.clear();
+            // a successful refresh looks at every service's process: whatever a failed start left behind is
+            // recorded from here on, so it no longer excuses a mismatch
+            orphans.clear();
         }
         let before_json = serde_json::to_value(&registry).unwrap_or_default();
         let running_before: BTreeSet<String> = registry.nodes.iter().filter(|n| n.status == ServiceStatus::Running).map(|n| n.service_name.clone()).collect();
